@@ -535,11 +535,25 @@ theorem enumStorage_nonneg (maxV : Int) : enumStorage 0 maxV = some Gen.tagUInt3
   simp only [Int.lt_irrefl, ↓reduceIte, h1, h2, h3, h4, h5, h6, s1, s2, s3, s4, s5, s6]
   split <;> (try split) <;> (try split) <;> (try split) <;> (try split) <;> rfl
 
-theorem enumStorage_neg (minV maxV : Int) (h : minV < 0) : enumStorage minV maxV = some Gen.tagInt32 := by
+theorem enumStorage_neg (minV maxV : Int) (h : minV < 0) (hmax : maxV ≤ 2147483647) :
+    enumStorage minV maxV = some Gen.tagInt32 := by
   obtain ⟨_, _, _, _, _, _, h7, h8, h9, _⟩ := probe_facts
+  have hmi : Gen.gMaxInt = 2147483647 := by decide
   unfold enumStorage enumWidthSigned
-  simp only [h, ↓reduceIte, h7, h8, h9]
+  simp only [h, ↓reduceIte, h7, h8, h9, hmi, hmax, decide_true]
   split <;> (try split) <;> rfl
+
+/-- the branch added for a negative member together with a member above G_MAXINT -/
+theorem enumStorage_neg_big (minV maxV : Int) (h : minV < 0) (hmax : 2147483647 < maxV) :
+    enumStorage minV maxV = some Gen.tagInt64 := by
+  have hmi : Gen.gMaxInt = 2147483647 := by decide
+  have hms : Gen.gMaxShort = 32767 := by decide
+  have h1 : ¬ maxV ≤ 127 := by omega
+  have h2 : ¬ maxV ≤ 32767 := by omega
+  have h3 : ¬ maxV ≤ 2147483647 := by omega
+  unfold enumStorage enumWidthSigned
+  simp only [h, ↓reduceIte, hmi, hms, h1, h2, h3, decide_false, Bool.and_false, Bool.false_eq_true]
+  decide
 
 theorem enumMinMax_spec (vs : List Int) (lo hi : Int) (hlo : lo ≤ 0) (hhi : 0 ≤ hi) :
     let mm := vs.foldl (fun (mm : Int × Int) v =>
@@ -579,9 +593,20 @@ theorem enumMinMax_spec (vs : List Int) (lo hi : Int) (hlo : lo ≤ 0) (hhi : 0 
 
 theorem blobOffset_small (o : Int) (h0 : 0 ≤ o) (h1 : o < 65535) : blobOffset o = o.toNat ∧ blobOffset o ≠ 65535 := by
   unfold blobOffset
-  simp only [ge_iff_le, h0, ↓reduceIte]
+  have hc : (decide (o ≥ 0) && decide (o < 65535)) = true := by simp [h0, h1]
+  simp only [hc, ↓reduceIte]
   have : o % 65536 = o := Int.emod_eq_of_lt h0 (by omega)
   rw [this]
   exact ⟨rfl, by omega⟩
+
+theorem blobOffset_unknown (o : Int) (h : o < 0 ∨ 65535 ≤ o) : blobOffset o = 65535 := by
+  unfold blobOffset
+  have hc : (decide (o ≥ 0) && decide (o < 65535)) = false := by
+    rcases h with h | h
+    · have : ¬ o ≥ 0 := by omega
+      simp [this]
+    · have : ¬ o < 65535 := by omega
+      simp [this]
+  simp only [hc, Bool.false_eq_true, ↓reduceIte]
 
 end GIVerif.Offsets
